@@ -40,6 +40,29 @@ def edit(src, qual, how):
             return None
         ind = lines[ln][:len(lines[ln]) - len(lines[ln].lstrip())]
         lines.insert(ln, ind + 'pass')
+    elif how == 'tmpret':
+        # `return EXPR` -> `_res = EXPR; return _res` for the LAST return of the function (single-line, own line)
+        rets = [x for x in ast.walk(node) if isinstance(x, ast.Return) and x.value is not None and x.lineno == x.end_lineno
+                and not isinstance(x.value, (ast.Constant, ast.Name))]
+        rets = [r for r in rets if lines[r.lineno - 1].strip().startswith('return ')]
+        # only returns that belong to this very function
+        own = []
+        for r in rets:
+            q = r
+            ok = True
+            for f2 in ast.walk(node):
+                if f2 is not node and isinstance(f2, (ast.FunctionDef, ast.AsyncFunctionDef, ast.Lambda)) and any(y is r for y in ast.walk(f2)):
+                    ok = False
+            if ok:
+                own.append(r)
+        if not own:
+            return None
+        r = own[-1]
+        ln = r.lineno - 1
+        ind = lines[ln][:len(lines[ln]) - len(lines[ln].lstrip())]
+        expr = lines[ln].strip()[len('return '):]
+        lines[ln] = ind + '_res = ' + expr
+        lines.insert(ln + 1, ind + 'return _res')
     else:
         if has_doc or first.lineno == node.lineno:
             return None
@@ -84,11 +107,11 @@ def main():
         for mod, qual in funcs_of(p):
             if qual == '<module>':
                 continue
-            for how in ('pass', 'doc'):
+            for how in os.environ.get('HOW', 'pass,doc').split(','):
                 jobs.append((p, mod, qual, how))
     print('%d twins' % len(jobs), flush=True)
     bad = 0
-    with ProcessPoolExecutor(12) as ex:
+    with ProcessPoolExecutor(int(os.environ.get("JOBS", "6"))) as ex:
         for args, verdict, fired in ex.map(run, jobs):
             if verdict not in ('ok', 'skip'):
                 bad += 1
